@@ -108,12 +108,14 @@ impl Arc<KeyObject> {
 pub enum PartialValue { Refer(Uuid), Other }
 pub enum FC { Eq(Attribute, PartialValue) }
 pub fn f_eq(a: Attribute, v: PartialValue) -> (r: FC) ensures r == FC::Eq(a, v) { FC::Eq(a, v) }
-pub struct Filter { pub fc: FC }
-pub fn kvx_filter(fc: FC) -> (r: Filter) ensures r.fc == fc { Filter { fc } }
+// filter!(fc) selects live entries only; filter_all!(fc) also recycled and tombstoned ones
+pub struct Filter { pub fc: FC, pub live_only: bool }
+pub fn kvx_filter(fc: FC) -> (r: Filter) ensures r.fc == fc && r.live_only { Filter { fc, live_only: true } }
+pub fn kvx_filter_all(fc: FC) -> (r: Filter) ensures r.fc == fc && !r.live_only { Filter { fc, live_only: false } }
 pub struct QueryServerReadTransaction { pub o: int }
 impl QueryServerReadTransaction {
     pub uninterp spec fn keys(&self) -> Keys;                      // the domain key object of this transaction
-    pub uninterp spec fn entry(&self, u: Uuid) -> Option<EntrySealedCommitted>;
+    pub uninterp spec fn entry(&self, u: Uuid) -> Option<EntrySealedCommitted>;      // the LIVE entry with that uuid (existing account)
     #[verifier::external_body] pub fn get_domain_key_object_handle(&self) -> (r: Result<Arc<KeyObject>, OperationError>)
         ensures r matches Ok(h) ==> h.v.keys() == self.keys() { unimplemented!() }
     #[verifier::external_body] pub fn internal_search_uuid(&mut self, uuid: Uuid) -> (r: Result<Arc<EntrySealedCommitted>, OperationError>)
@@ -121,7 +123,7 @@ impl QueryServerReadTransaction {
     // search by `api_token_session = session`: live entries that carry that session
     #[verifier::external_body] pub fn internal_search(&mut self, f: Filter) -> (r: Result<Vec<Arc<EntrySealedCommitted>>, OperationError>)
         ensures *final(self) == *old(self),
-                r matches Ok(v) ==> forall|i: int| 0 <= i < v@.len() ==> old(self).entry((#[trigger] v@[i]).v.uuid()) == Some(v@[i].v) { unimplemented!() }
+                r matches Ok(v) ==> (f.live_only ==> forall|i: int| 0 <= i < v@.len() ==> old(self).entry((#[trigger] v@[i]).v.uuid()) == Some(v@[i].v)) { unimplemented!() }
 }
 pub struct IdmTxn { pub qs: QueryServerReadTransaction }
 // what C32 requires of an accepted bearer token
